@@ -94,17 +94,30 @@ def accuracy_case(c):
     if c.get("background"):
         # sub-volume and template sit on the same non-zero background (a copy of the template, displaced)
         t = (t + np.float32(c["background"]) * float(t.max())).astype(np.float32)
+    if c.get("gain"):
+        # the same map in other units (densities of order 1e-3 or 1e3): normalised correlations do not care
+        t = (t * np.float32(c["gain"])).astype(np.float32)
     img = displaced(t, d)
     M = {"zncc": ZNCCAlignment, "ncc": NCCAlignment, "pcc": PCCAlignment, "fsc": FSCAlignment}[c["model"]]
     kw = {}
     if c.get("cutoff"): kw["cutoff"] = c["cutoff"]
     if c.get("tilt"): kw["tilt"] = tuple(c["tilt"])
-    model = M(t, **kw)
+    if c.get("multi"):
+        # several templates and a rotation search at once: an unrotated displaced copy of template `multi[0]` must come back with
+        # that label, the identity rotation and the displacement
+        nt, which = c["multi"]
+        decoys = [np.ascontiguousarray(np.roll(t[::-1, :, ::-1], j + 1, axis=1)) for j in range(nt - 1)]
+        tl = decoys[:which] + [t] + decoys[which:]
+        model = M(tl, rotations=((20, 20), (0, 0), (20, 20)), **kw)
+    else:
+        model = M(t, **kw)
     q = Rotation.from_rotvec(c["rotvec"]).as_quat() if c.get("rotvec") else None
     res = model.align(img, tuple(c["max_shifts"]), quaternion=q)
     err = float(np.abs(np.asarray(res.shift, float) - d).max())
     tol = 0.5 if c["model"] == "fsc" else 0.1
-    ok = err <= tol + 1e-6 and np.allclose(res.quat, [0, 0, 0, 1])
+    ok = err <= tol + 1e-6 and (np.allclose(res.quat, [0, 0, 0, 1], atol=1e-6) or np.allclose(res.quat, [0, 0, 0, -1], atol=1e-6))
+    if c.get("multi") and int(res.label) % c["multi"][0] != c["multi"][1]:
+        ok = False
     # normalised scores: close to 1 (the FSC landscape is only evaluated at integer lags, so demand it for integer displacements)
     if c["model"] == "zncc" and float(res.score) < 0.9:
         ok = False
@@ -114,6 +127,13 @@ def accuracy_case(c):
 
 
 DIRECTED = [
+    # low- and high-amplitude maps (gain invariance of the normalised models)
+    dict(model="zncc", shape=[16, 16, 16], max_shifts=[2.0, 2.0, 2.0], d=[1.0, -2.0, 0.5], seed=21, cutoff=None, tilt=None, rotvec=None, dkind="gain", gain=1e-3),
+    dict(model="ncc", shape=[16, 15, 17], max_shifts=[2.0, 2.0, 2.0], d=[-1.5, 1.0, 2.0], seed=22, cutoff=None, tilt=None, rotvec=None, dkind="gain", gain=1e-4),
+    dict(model="zncc", shape=[15, 16, 16], max_shifts=[2.0, 2.0, 2.0], d=[2.0, 0.0, -1.25], seed=23, cutoff=None, tilt=None, rotvec=None, dkind="gain", gain=1e3),
+    # several templates together with a rotation search: identity rotation for an unrotated copy
+    dict(model="zncc", shape=[16, 16, 16], max_shifts=[2.0, 2.0, 2.0], d=[1.0, -1.0, 0.0], seed=24, cutoff=None, tilt=None, rotvec=None, dkind="multi", multi=[2, 1]),
+    dict(model="pcc", shape=[16, 16, 16], max_shifts=[2.0, 2.0, 2.0], d=[0.0, 2.0, -1.0], seed=25, cutoff=None, tilt=None, rotvec=None, dkind="multi", multi=[3, 0]),
     # FSC with a fractional range and a displacement beyond its integer part
     dict(model="fsc", shape=[15, 16, 14], max_shifts=[1.8, 1.8, 1.8], d=[1.8, -1.8, 0.5], seed=13, cutoff=None, tilt=None, rotvec=None, dkind="corner"),
     # FSC with a different search length on every axis (each axis needs its own phase table)
@@ -168,7 +188,8 @@ def oracle_accuracy(ck, rng):
             lo = int(np.ceil(2 * (max(ms) + 4.5)))
             shape = [max(x, lo) for x in shape]
         bg = float(rng.choice([0.0, 1.0, 2.0])) if model in ("ncc", "zncc") and i % 2 else 0.0
-        c = dict(model=model, shape=shape, max_shifts=ms, background=bg, d=[float(x) for x in d], seed=int(rng.integers(0, 2**31)),
+        gain = float(rng.choice([1e-3, 1e3, 1e-4])) if (model in ("ncc", "zncc") and i % 5 == 2 and not bg) else None
+        c = dict(model=model, shape=shape, max_shifts=ms, background=bg, gain=gain, d=[float(x) for x in d], seed=int(rng.integers(0, 2**31)),
                  cutoff=(0.45 if i % 7 == 0 else None), tilt=None, rotvec=((rng.normal(size=3) * 0.4).tolist() if i % 6 == 0 else None),
                  dkind=["integer", "fractional", "face", "corner", "small"][kind])
         _accuracy_one(ck, c)
